@@ -3,6 +3,9 @@ package main
 import (
 	"context"
 	"fmt"
+	"os"
+	"strings"
+	"sync"
 	"time"
 
 	"verifharness/enc"
@@ -11,6 +14,7 @@ import (
 	"verifharness/sched"
 
 	"github.com/boz/kcache"
+	metav1 "k8s.io/apimachinery/pkg/apis/meta/v1"
 )
 
 func init() {
@@ -252,7 +256,144 @@ func runC05(c *Ctx) {
 			c.Sample(sample)
 		}
 	}
-	c.Rep.Rule = "trees of Subscribe/Clone to depth 3 built through the public API on a real controller fed by the fake API server's watch (virtual time), subscriptions created at barriers and racing with the stream, <= EventBufsiz/4 events in flight, 4 levels of logger-driven perturbation. Oracles: every subscriber's sequence is a suffix of the reference subscriber's (exact start index when created at a barrier), no event before Ready, Get after an event never returns an older version; sequences of barrier-created subscribers vs the extracted model (skipn). Non-trivial = scenario with >= 3 subscribers checked."
+	// a sibling that never reads and holds a full buffer does not keep the
+	// others from receiving everything
+	for i := 0; i < 2; i++ {
+		var problems []string
+		what := "130 events with a sibling that never reads (its buffer fills)"
+		c.Now(what)
+		dl := treeBubble(c, c.Seed*1000+700+int64(i), i, nil, func(t *tree, srv *fakeapi.Server) {
+			live, _ := t.add(t.root, nSub, nil)
+			dead, _ := t.add(t.root, nSub, nil)
+			cl, _ := t.add(t.root, nClone, nil)
+			var deep *node
+			if cl != nil {
+				deep, _ = t.add(cl, nSub, nil)
+				if d2, _ := t.add(cl, nSub, nil); d2 != nil {
+					d2.setStall(true)
+				}
+			}
+			if dead != nil {
+				dead.setStall(true)
+			}
+			t.ct.pert.Barrier()
+			k0 := map[*node]int{}
+			for _, nd := range []*node{live, deep} {
+				if nd != nil {
+					k0[nd] = len(nd.received())
+				}
+			}
+			for k := 0; k < 130; k++ {
+				srv.Set(1+k%2, 1+k%3, labSets[k%3], 1)
+				// the live consumers keep up: never more than a few events in flight
+				t.ct.pert.Barrier()
+			}
+			for nd, k := range k0 {
+				if got := len(nd.received()) - k; got != 130 {
+					problems = append(problems, fmt.Sprintf("%s kept its own backlog at zero and received %d of 130 events while a sibling held a full buffer of unread events", nd.name(), got))
+				}
+			}
+		})
+		runs++
+		c.Rep.Evaluations++
+		replay := map[string]interface{}{"scenario": what, "attempt": i}
+		if dl != "" {
+			replay["deadlock"] = dl
+			c.Violation("", "hang (bubble deadlock): "+what, replay)
+		}
+		for _, p := range problems {
+			c.Violation("", p, replay)
+		}
+		c.DistinctCase(fmt.Sprint("stalled-sibling", i))
+	}
+	// the differences a periodic relist finds are published in order with the
+	// watch events that follow it: nobody sees an object go back to an older version
+	nrace := 12
+	if !c.Quick() {
+		nrace = 200
+	}
+	if v := os.Getenv("KVERIF_NRACE"); v != "" {
+		fmt.Sscan(v, &nrace)
+	}
+	for i := 0; i < nrace; i++ {
+		var problems []string
+		what := "a relist that finds 399 differences, with newer versions of the last of those objects delivered first thing by the restarted watch"
+		c.Now(what)
+		dl := sched.Bubble(c.T, func() {
+			srv := fakeapi.New()
+			srv.Set(1, 1, labSets[1], 1)
+			ct := newCtlWith(srv, c.Seed*1000+800+int64(i), (i%4)/3, 2*time.Second, nil)
+			t := newTree(ct, nil)
+			defer func() {
+				ct.pert.SetLevel(0)
+				ct.c.Close()
+				sched.Settle()
+				for _, n := range t.nodes {
+					if n.readerEnd != nil {
+						<-n.readerEnd
+					}
+				}
+			}()
+			ct.pert.Barrier()
+			a, _ := t.add(t.root, nSub, nil)
+			cl, _ := t.add(t.root, nClone, nil)
+			var b *node
+			if cl != nil {
+				b, _ = t.add(cl, nSub, nil)
+			}
+			ct.pert.Barrier()
+			// the watch that is restarted after a relist delivers, first thing,
+			// newer versions of the objects the relist's differences end with
+			pendingDiff := false
+			srv.BeforeWatch = func(string) {
+				if pendingDiff {
+					pendingDiff = false
+					for k := 0; k < 3; k++ {
+						srv.Set(2, 200-k, labSets[k%3], 2)
+					}
+				}
+			}
+			for round := 0; round < 2; round++ {
+				// the watch loses 399 changes; the next relist finds them
+				srv.DropNext(399)
+				for k := 0; k < 399; k++ {
+					srv.Set(1+(k+1)%2, 1+(k+1)/2, labSets[(k+round)%3], 1)
+				}
+				pendingDiff = true
+				time.Sleep(2500 * time.Millisecond)
+				ct.pert.Barrier()
+				pendingDiff = false
+			}
+			for _, nd := range []*node{a, b} {
+				if nd == nil {
+					continue
+				}
+				for _, e := range nd.received() {
+					if e.ty != 2 && e.ver < e.maxSeen {
+						problems = append(problems, fmt.Sprintf("%s received %v@%d after it had already received @%d: publication order is not the order in which the cache changed", nd.name(), e.key, e.ver, e.maxSeen))
+						break
+					}
+				}
+			}
+			got, _ := cacheIDs(ct.c.Cache())
+			if want := objIDs(srv.Objects()); !sameInts(got, want) {
+				problems = append(problems, fmt.Sprintf("after the relists the cache holds %v, the server %v", got, want))
+			}
+		})
+		runs++
+		c.Rep.Evaluations++
+		replay := map[string]interface{}{"scenario": what, "attempt": i}
+		if dl != "" {
+			replay["deadlock"] = dl
+			c.Violation("", "hang (bubble deadlock): "+what, replay)
+		}
+		for _, p := range problems {
+			c.Violation("", p, replay)
+		}
+		c.DistinctCase(fmt.Sprint("relist-race", i))
+	}
+	bufferScenarios(c, 3, 60)
+	c.Rep.Rule = "trees of Subscribe/Clone to depth 3 built through the public API on a real controller fed by the fake API server's watch (virtual time), subscriptions created at barriers and racing with the stream, <= EventBufsiz/4 events in flight, 4 levels of logger-driven perturbation. Oracles: every subscriber's sequence is a suffix of the reference subscriber's (exact start index when created at a barrier), no event before Ready, Get after an event never returns an older version; sequences of barrier-created subscribers vs the extracted model (skipn). Plus: 130 events with never-reading siblings holding full buffers (the consumers that keep up receive all 130); and periodic relists that find 399 differences while the restarted watch at once delivers newer versions of the last of those objects (no subscriber sees an object go back to an older version). Non-trivial = scenario with >= 3 subscribers checked."
 	c.Rep.Stats["runs"] = runs
 }
 
@@ -403,7 +544,11 @@ func runC10(c *Ctx) {
 			}
 		}
 	}
-	c.Rep.Rule = "a tree with healthy, never-reading and slow consumers at every position (direct subscriber, subscriber of a clone, subscriber of a filtered clone, directly-read filtered subscription, monitor with a blocking handler) on a real controller fed through the fake watch; stream lengths 0 .. 4 x EventBufsiz. Oracles: healthy consumers receive the complete reference sequence, caches (controller, filtered clone, stalled filtered subscription) stay current, a never-reading subscriber receives exactly the first EventBufsiz events published after its creation, slow consumers an in-order subsequence, blocked monitor makes one callback and never overlaps. Non-trivial = stream length > 0."
+	bufferScenarios(c, 6, 150)
+	for i := 0; i < 4; i++ {
+		stalledRefilter(c, i)
+	}
+	c.Rep.Rule = "a tree with healthy, never-reading and slow consumers at every position (direct subscriber, subscriber of a clone, subscriber of a filtered clone, directly-read filtered subscription, monitor with a blocking handler) on a real controller fed through the fake watch; stream lengths 0 .. 4 x EventBufsiz. Oracles: healthy consumers receive the complete reference sequence, caches (controller, filtered clone, stalled filtered subscription) stay current, a never-reading subscriber receives exactly the first EventBufsiz events published after its creation, slow consumers an in-order subsequence, blocked monitor makes one callback and never overlaps. Plus a Refilter whose differences exceed the free slots of a stalled consumer's buffer (returns, cache follows, later Refilter returns). Plus seeded publish/subscribe/take sequences on the controller and on a clone with bursts of up to 130 events and consumers that drain only partly: what every consumer received equals the extracted Pipeline.prun on the same operations (a subscription loses exactly the events that found its buffer full). Non-trivial = stream length > 0."
 	c.Rep.Stats["runs"] = runs
 }
 
@@ -634,6 +779,176 @@ func runC16(c *Ctx) {
 		}
 		c.DistinctCase(fmt.Sprint("prer", i))
 	}
-	c.Rep.Rule = "untyped monitors on a real controller fed through the fake watch in virtual time: seeded event sequences, handler durations {0, 1ms, 50ms (slower than the producer)}, Close at {never, before the publisher is ready, mid-stream at a barrier, mid-stream while a handler runs, at the end}. Observed: the callback log with begin/end overlap detection and Done() at each callback. Oracles: OnInitialize at most once and first with the cache content at readiness, then one callback per published event matching type and object in order (all of them when never closed), never concurrently, none after Done(), none at all when closed before ready; plus a hand-driven publisher (verif export) that hands events to the monitor's subscription before Ready closes (OnInitialize must still come first); the log is also checked by the extracted model's monitor_log_ok. Non-trivial = every scenario."
+	// the source shuts down (or only its cache stops) before readiness is
+	// signalled: no callback at all, or OnInitialize with what the cache held
+	for i := 0; i < 16; i++ {
+		var problems []string
+		cacheOnly := i%2 == 1
+		what := "hand-driven source: the publisher is stopped, then its ready channel closes"
+		if cacheOnly {
+			what = "hand-driven source: the cache stops (its context ends), then the ready channel closes"
+		}
+		c.Now(what)
+		dl := sched.Bubble(c.T, func() {
+			ctx, cancel := context.WithCancel(context.Background())
+			defer cancel()
+			pert := sched.NewPerturb(c.Seed+int64(i), i%3)
+			src := kcache.NewVerifSource(ctx, pert.Log(), (&Filt{Tag: FNull}).Go())
+			objs := []*Obj{{ID: 1, Kind: KPod, NS: 1, NM: 1, RV: "1", Spec: SPod}, {ID: 2, Kind: KPod, NS: 1, NM: 2, RV: "2", Spec: SPod}}
+			src.CacheActor().Sync([]metav1.Object{objs[0].Go(), objs[1].Go()})
+			nd := &node{id: 1, kind: nMonitor}
+			mon, err := kcache.NewMonitor(src, nd.handler())
+			if err != nil {
+				problems = append(problems, "NewMonitor failed")
+				return
+			}
+			nd.mon = mon
+			pert.Barrier()
+			if cacheOnly {
+				cancel()
+				<-src.CacheActor().Done()
+			} else {
+				src.Stop()
+			}
+			pert.SetLevel(0)
+			sched.Settle()
+			src.MakeReady()
+			sched.Settle()
+			time.Sleep(time.Millisecond)
+			sched.Settle()
+			if cacheOnly {
+				// an event after the cache has stopped
+				src.Send(kcache.NewEvent(etyTo(1), (&Obj{ID: 3, Kind: KPod, NS: 1, NM: 1, RV: "3", Spec: SPod}).Go()))
+				sched.Settle()
+			}
+			hl, _ := nd.handlerLog()
+			for j, h := range hl {
+				if h.what == "init" && j == 0 && sameInts(h.ids, []int{1, 2}) {
+					continue
+				}
+				if !cacheOnly {
+					problems = append(problems, fmt.Sprintf("callback %s%v ran although the publisher shut down before it became ready", h.what, h.ids))
+				} else if h.what == "init" {
+					problems = append(problems, fmt.Sprintf("OnInitialize received %v, the cache held [1 2] when it stopped", h.ids))
+				} else if j == 0 {
+					problems = append(problems, "the first callback was "+h.what+", not OnInitialize")
+				}
+			}
+			if !cacheOnly && len(hl) > 0 {
+				problems = append(problems, fmt.Sprintf("%d callbacks ran although the publisher shut down before it became ready", len(hl)))
+			}
+			if cacheOnly {
+				src.Stop()
+			}
+			sched.Settle()
+			cancel()
+			sched.Settle()
+		})
+		runs++
+		c.Rep.Evaluations++
+		replay := map[string]interface{}{"scenario": what, "attempt": i}
+		if dl != "" {
+			replay["deadlock"] = dl
+			c.Violation("", "hang (bubble deadlock): "+what, replay)
+		}
+		for _, p := range problems {
+			c.Violation("", p+" ["+what+"]", replay)
+		}
+		c.DistinctCase(fmt.Sprint("stopped-before-ready", i))
+	}
+	// handlers with any subset of the four callbacks: the callbacks that are
+	// there still get exactly their events
+	for mask := 0; mask < 16; mask++ {
+		var problems []string
+		what := fmt.Sprintf("handler with callbacks {init:%v create:%v update:%v delete:%v}", mask&1 != 0, mask&2 != 0, mask&4 != 0, mask&8 != 0)
+		c.Now(what)
+		dl := sched.Bubble(c.T, func() {
+			srv := fakeapi.New()
+			srv.Set(1, 1, labSets[1], 1)
+			ct := newCtlWith(srv, c.Seed+int64(mask), mask%3, 1000000*time.Second, nil)
+			defer func() {
+				ct.pert.SetLevel(0)
+				ct.c.Close()
+				sched.Settle()
+			}()
+			ct.pert.Barrier()
+			var mu sync.Mutex
+			var full, part []string
+			rec := func(dst *[]string, k string) func(metav1.Object) {
+				return func(o metav1.Object) {
+					mu.Lock()
+					*dst = append(*dst, fmt.Sprintf("%s:%d", k, ID(o)))
+					mu.Unlock()
+				}
+			}
+			hb := kcache.BuildHandler()
+			if mask&1 != 0 {
+				hb = hb.OnInitialize(func(os []metav1.Object) {
+					mu.Lock()
+					part = append(part, fmt.Sprintf("init:%d", len(os)))
+					mu.Unlock()
+				})
+			}
+			if mask&2 != 0 {
+				hb = hb.OnCreate(rec(&part, "create"))
+			}
+			if mask&4 != 0 {
+				hb = hb.OnUpdate(rec(&part, "update"))
+			}
+			if mask&8 != 0 {
+				hb = hb.OnDelete(rec(&part, "delete"))
+			}
+			fullH := kcache.BuildHandler().OnInitialize(func(os []metav1.Object) {
+				mu.Lock()
+				full = append(full, fmt.Sprintf("init:%d", len(os)))
+				mu.Unlock()
+			}).OnCreate(rec(&full, "create")).OnUpdate(rec(&full, "update")).OnDelete(rec(&full, "delete")).Create()
+			if _, err := kcache.NewMonitor(ct.c, fullH); err != nil {
+				problems = append(problems, "NewMonitor failed")
+				return
+			}
+			if _, err := kcache.NewMonitor(ct.c, hb.Create()); err != nil {
+				problems = append(problems, "NewMonitor failed")
+				return
+			}
+			ct.pert.Barrier()
+			srv.Set(1, 2, labSets[0], 1)
+			srv.Set(1, 2, labSets[1], 1)
+			srv.Delete(1, 2)
+			srv.Set(2, 1, labSets[0], 1)
+			srv.Delete(1, 1)
+			srv.Set(2, 1, labSets[2], 1)
+			ct.pert.Barrier()
+			ct.pert.SetLevel(0)
+			sched.Settle()
+			mu.Lock()
+			defer mu.Unlock()
+			var want []string
+			kinds := map[string]int{"init": 1, "create": 2, "update": 4, "delete": 8}
+			for _, e := range full {
+				if mask&kinds[strings.SplitN(e, ":", 2)[0]] != 0 {
+					want = append(want, e)
+				}
+			}
+			if len(full) != 7 {
+				problems = append(problems, fmt.Sprintf("a monitor with all four callbacks logged %v for 6 events", full))
+			}
+			if strings.Join(part, " ") != strings.Join(want, " ") {
+				problems = append(problems, fmt.Sprintf("callbacks were %v; the events restricted to the callbacks the handler has are %v", part, want))
+			}
+		})
+		runs++
+		c.Rep.Evaluations++
+		replay := map[string]interface{}{"scenario": what}
+		if dl != "" {
+			replay["deadlock"] = dl
+			c.Violation("", "hang (bubble deadlock): "+what, replay)
+		}
+		for _, p := range problems {
+			c.Violation("", p+" ["+what+"]", replay)
+		}
+		c.DistinctCase(what)
+	}
+	c.Rep.Rule = "untyped monitors on a real controller fed through the fake watch in virtual time: seeded event sequences, handler durations {0, 1ms, 50ms (slower than the producer)}, Close at {never, before the publisher is ready, mid-stream at a barrier, mid-stream while a handler runs, at the end}. Observed: the callback log with begin/end overlap detection and Done() at each callback. Oracles: OnInitialize at most once and first with the cache content at readiness, then one callback per published event matching type and object in order (all of them when never closed), never concurrently, none after Done(), none at all when closed before ready; plus a hand-driven publisher (verif export) that hands events to the monitor's subscription before Ready closes (OnInitialize must still come first), whose publisher is stopped before its ready channel closes (no callback at all) and whose cache stops before readiness (no callback, or OnInitialize with what the cache held); handlers built with every subset of the four callbacks (the ones present get exactly their events, in order); the log is also checked by the extracted model's monitor_log_ok. Non-trivial = every scenario."
 	c.Rep.Stats["runs"] = runs
 }
